@@ -30,6 +30,8 @@ GROWTH = 2
 
 
 # ties between the function bodies translated from the Rust source on every run (Gen/Fns.lean) and the hand-written models
+THEOREM_MODULES.append("Yarel.Props.CollectSites")
+REQUIRED_THEOREMS += ["collections_start_only_in_allocate_raw"]
 THEOREM_MODULES.append("Yarel.Props.FnsTie.Pacing")
 REQUIRED_THEOREMS += ['allocate_raw_tie', 'collect_if_required_tie', 'collect_tie', 'alloc_glued_is_model']
 
